@@ -129,6 +129,7 @@ static void run_case(cs::Src& s, cs::Ctx& ctx) {
   bool ok = lib::build(d.to<JsonVariant>(), v, s, arena, &bs);
   CHECK(ctx, ok && !d.overflowed(), "build", "building the document failed");
   Val od = lib::observe(d.as<JsonVariantConst>());
+  const size_t nest = v.nesting();  // calls below rely on the default nesting limit whenever the document fits it
   std::string why;
   // bin/ext raws are observed through serializeJson (raw bytes verbatim) => same bytes
   CHECK(ctx, ref::same(v, od, ref::num_exact, &why), "build", "document differs from the value it was built from: " + why);
@@ -148,7 +149,7 @@ static void run_case(cs::Src& s, cs::Ctx& ctx) {
     serializeJson(d, text);
     ctx.current_rendering += "\njson: " + cs::quote_bytes(text);
     JsonDocument d2;
-    DeserializationError err = deserializeJson(d2, text);
+    DeserializationError err = (nest <= ARDUINOJSON_DEFAULT_NESTING_LIMIT ? deserializeJson(d2, text) : deserializeJson(d2, text, DeserializationOption::NestingLimit(40)));
     ctx.executions++;
     CHECK(ctx, err == DeserializationError::Ok, "json-roundtrip",
           std::string("deserializeJson(serializeJson(d)) returned ") + err.c_str());
@@ -163,7 +164,7 @@ static void run_case(cs::Src& s, cs::Ctx& ctx) {
     serializeMsgPack(d, mp);
     ctx.current_rendering += "\nmsgpack: " + cs::hex_bytes(mp);
     JsonDocument d3;
-    DeserializationError err = deserializeMsgPack(d3, mp);
+    DeserializationError err = (nest <= ARDUINOJSON_DEFAULT_NESTING_LIMIT ? deserializeMsgPack(d3, mp) : deserializeMsgPack(d3, mp, DeserializationOption::NestingLimit(40)));
     ctx.executions++;
     CHECK(ctx, err == DeserializationError::Ok, "msgpack-roundtrip",
           std::string("deserializeMsgPack(serializeMsgPack(d)) returned ") + err.c_str());
@@ -182,13 +183,13 @@ static void run_case(cs::Src& s, cs::Ctx& ctx) {
     std::string text;
     text_of(v, text);
     JsonDocument d1;
-    DeserializationError err = deserializeJson(d1, text);
+    DeserializationError err = (nest <= ARDUINOJSON_DEFAULT_NESTING_LIMIT ? deserializeJson(d1, text) : deserializeJson(d1, text, DeserializationOption::NestingLimit(40)));
     ctx.executions++;
     if (err == DeserializationError::Ok) {
       std::string mp;
       serializeMsgPack(d1, mp);
       JsonDocument d2;
-      err = deserializeMsgPack(d2, mp);
+      err = nest <= ARDUINOJSON_DEFAULT_NESTING_LIMIT ? deserializeMsgPack(d2, mp) : deserializeMsgPack(d2, mp, DeserializationOption::NestingLimit(40));
       CHECK(ctx, err == DeserializationError::Ok, "cross-format", std::string("deserializeMsgPack returned ") + err.c_str());
       Val o1 = lib::observe(d1.as<JsonVariantConst>());
       Val o2 = lib::observe(d2.as<JsonVariantConst>());
